@@ -160,3 +160,138 @@ pub open spec fn redeem_post(w: World, wf: World, assets: i128, shares: i128, re
     let w2 = redeem_mid(w, wf, shares, operator);
     w_event(withdraw_internal_post(w2, wf, receiver, owner, assets, shares, operator), withdraw_ev(operator, receiver, owner, assets, shares))
 }
+
+// =================================================================================================
+// Part 2 — rounding always favours the vault: integer lemmas (ap = A+1 > 0, sp = S+10^off > 0)
+// rate_le(ap, sp, ap2, sp2)  <=>  ap/sp <= ap2/sp2   (cross-multiplied, division-free)
+// =================================================================================================
+pub open spec fn rate_le(ap: int, sp: int, ap2: int, sp2: int) -> bool { ap * sp2 <= ap2 * sp }
+
+/// deposit: a assets in, s = floor(a*sp/ap) shares out: the depositor never gets more than the fair amount
+/// and the rate does not fall
+pub proof fn lemma_rate_deposit(a: int, ap: int, sp: int, s: int)
+    requires ap > 0, sp > 0, a >= 0, is_floor(a * sp, ap, s),
+    ensures
+        //@@ C05:lemma.deposit_shares_at_most_fair
+        s * ap <= a * sp,
+        s >= 0,
+        //@@ C05:lemma.deposit_rate_not_lower
+        rate_le(ap, sp, ap + a, sp + s),
+{
+    assert(a * sp >= 0) by(nonlinear_arith) requires a >= 0, sp > 0;
+    assert(s >= 0) by(nonlinear_arith) requires (s + 1) * ap > 0, ap > 0;
+    assert(ap * (sp + s) <= (ap + a) * sp) by(nonlinear_arith) requires s * ap <= a * sp;
+}
+/// mint: s shares out, a = ceil(s*ap/sp) assets in: the minter pays at least the fair amount
+pub proof fn lemma_rate_mint(s: int, ap: int, sp: int, a: int)
+    requires ap > 0, sp > 0, s >= 0, is_ceil(s * ap, sp, a),
+    ensures
+        //@@ C05:lemma.mint_assets_at_least_fair
+        a * sp >= s * ap,
+        a >= 0,
+        //@@ C05:lemma.mint_rate_not_lower
+        rate_le(ap, sp, ap + a, sp + s),
+{
+    assert(s * ap >= 0) by(nonlinear_arith) requires s >= 0, ap > 0;
+    assert(a >= 0) by(nonlinear_arith) requires a * sp >= 0, sp > 0;
+    assert(ap * (sp + s) <= (ap + a) * sp) by(nonlinear_arith) requires s * ap <= a * sp;
+}
+/// withdraw: a assets out, s = ceil(a*sp/ap) shares burned: the owner pays at least the fair amount of shares
+pub proof fn lemma_rate_withdraw(a: int, ap: int, sp: int, s: int)
+    requires ap > 0, sp > 0, a >= 0, is_ceil(a * sp, ap, s),
+    ensures
+        //@@ C05:lemma.withdraw_shares_at_least_fair
+        s * ap >= a * sp,
+        s >= 0,
+        //@@ C05:lemma.withdraw_rate_not_lower
+        rate_le(ap, sp, ap - a, sp - s),
+{
+    assert(a * sp >= 0) by(nonlinear_arith) requires a >= 0, sp > 0;
+    assert(s >= 0) by(nonlinear_arith) requires s * ap >= 0, ap > 0;
+    assert(ap * (sp - s) <= (ap - a) * sp) by(nonlinear_arith) requires s * ap >= a * sp;
+}
+/// redeem: s shares burned, a = floor(s*ap/sp) assets out: the owner never receives more than the fair amount
+pub proof fn lemma_rate_redeem(s: int, ap: int, sp: int, a: int)
+    requires ap > 0, sp > 0, s >= 0, is_floor(s * ap, sp, a),
+    ensures
+        //@@ C05:lemma.redeem_assets_at_most_fair
+        a * sp <= s * ap,
+        a >= 0,
+        //@@ C05:lemma.redeem_rate_not_lower
+        rate_le(ap, sp, ap - a, sp - s),
+{
+    assert(s * ap >= 0) by(nonlinear_arith) requires s >= 0, ap > 0;
+    assert(a >= 0) by(nonlinear_arith) requires (a + 1) * sp > 0, sp > 0;
+    assert(ap * (sp - s) <= (ap - a) * sp) by(nonlinear_arith) requires a * sp <= s * ap;
+}
+/// a donation (direct transfer of d >= 0 assets to the vault) only raises the rate
+pub proof fn lemma_rate_donation(ap: int, sp: int, d: int)
+    requires sp > 0, d >= 0,
+    ensures //@@ C05:lemma.donation_rate_not_lower
+        rate_le(ap, sp, ap + d, sp),
+{
+    assert(ap * sp <= (ap + d) * sp) by(nonlinear_arith) requires sp > 0, d >= 0;
+}
+/// redeeming / withdrawing never takes the last virtual asset: what goes out is at most A = ap - 1
+/// as long as fewer shares than sp (i.e. at most the real supply, since 10^off >= 1) are burned
+pub proof fn lemma_redeem_leaves_virtual_asset(s: int, ap: int, sp: int, a: int)
+    requires ap > 0, sp > 0, 0 <= s < sp, is_floor(s * ap, sp, a),
+    ensures //@@ C05:lemma.redeem_cannot_drain_virtual_asset
+        a <= ap - 1,
+{
+    // a*sp <= s*ap < sp*ap  ==> a < ap
+    assert(s * ap < sp * ap) by(nonlinear_arith) requires s < sp, ap > 0;
+    assert(a < ap) by(nonlinear_arith) requires a * sp < sp * ap, sp > 0;
+}
+/// order of rates is transitive (positive denominators)
+pub proof fn lemma_rate_trans(a1: int, s1: int, a2: int, s2: int, a3: int, s3: int)
+    requires s1 > 0, s2 > 0, s3 > 0, rate_le(a1, s1, a2, s2), rate_le(a2, s2, a3, s3),
+    ensures rate_le(a1, s1, a3, s3),
+{
+    // a1*s2 <= a2*s1 , a2*s3 <= a3*s2
+    assert((a1 * s2) * s3 <= (a2 * s1) * s3) by(nonlinear_arith) requires a1 * s2 <= a2 * s1, s3 > 0;
+    assert((a2 * s3) * s1 <= (a3 * s2) * s1) by(nonlinear_arith) requires a2 * s3 <= a3 * s2, s1 > 0;
+    assert((a1 * s2) * s3 == (a1 * s3) * s2) by(nonlinear_arith);
+    assert((a2 * s1) * s3 == (a2 * s3) * s1) by(nonlinear_arith);
+    assert((a3 * s2) * s1 == (a3 * s1) * s2) by(nonlinear_arith);
+    assert(a1 * s3 <= a3 * s1) by(nonlinear_arith) requires (a1 * s3) * s2 <= (a3 * s1) * s2, s2 > 0;
+}
+/// round trip: deposit a, immediately redeem the shares received: never more than a comes back
+pub proof fn lemma_round_trip_deposit_redeem(a: int, ap: int, sp: int, s: int, a2: int)
+    requires ap > 0, sp > 0, a >= 0, is_floor(a * sp, ap, s), is_floor(s * (ap + a), sp + s, a2),
+    ensures //@@ C05:lemma.deposit_then_redeem_returns_at_most_deposit
+        a2 <= a,
+{
+    lemma_rate_deposit(a, ap, sp, s);
+    // a2*(sp+s) <= s*(ap+a) ; s*ap <= a*sp
+    if a2 >= a + 1 {
+        assert((a + 1) * (sp + s) <= a2 * (sp + s)) by(nonlinear_arith) requires a2 >= a + 1, sp + s > 0;
+        assert((a + 1) * (sp + s) == a * sp + a * s + sp + s) by(nonlinear_arith);
+        assert(s * (ap + a) == s * ap + a * s) by(nonlinear_arith);
+        assert(false);
+    }
+}
+/// round trip: mint s (paying a), immediately redeem s: never more than a comes back
+pub proof fn lemma_round_trip_mint_redeem(s: int, ap: int, sp: int, a: int, a2: int)
+    requires ap > 0, sp > 0, s >= 0, is_ceil(s * ap, sp, a), is_floor(s * (ap + a), sp + s, a2),
+    ensures //@@ C05:lemma.mint_then_redeem_returns_at_most_paid
+        a2 <= a,
+{
+    lemma_rate_mint(s, ap, sp, a);
+    if a2 >= a + 1 {
+        assert((a + 1) * (sp + s) <= a2 * (sp + s)) by(nonlinear_arith) requires a2 >= a + 1, sp + s > 0;
+        assert((a + 1) * (sp + s) == a * sp + a * s + sp + s) by(nonlinear_arith);
+        assert(s * (ap + a) == s * ap + a * s) by(nonlinear_arith);
+        assert(false);
+    }
+}
+/// 10^n is positive, and at most 10^10 for the permitted offsets
+pub proof fn lemma_pow10(n: nat)
+    ensures pow10(n) >= 1, n <= 10 ==> pow10(n) <= 10_000_000_000,
+{
+    vstd::arithmetic::power::lemma_pow_positive(10, n);
+    if n <= 10 {
+        vstd::arithmetic::power::lemma_pow_increases(10, n, 10);
+        assert(pow10(10) == 10_000_000_000) by { reveal_with_fuel(vstd::arithmetic::power::pow, 12); }
+    }
+}
